@@ -32,6 +32,7 @@ class H:
     opts: dict = field(default_factory=dict)
     validate: bool = True
     expect_outside: bool = False  # paths may legitimately leave the modelled fragment
+    replay_outside: bool = False  # a path that leaves the modelled fragment (e.g. a division by zero, which numpy turns into NaN instead of raising) is replayed concretely on the real code with its witness; a concrete failure is a violation
     kind: str = "E1"
 
 
@@ -54,6 +55,7 @@ _MOD = None
 
 def _load(pid):
     global _MOD
+    sys.set_int_max_str_digits(0)
     if _MOD is None or _MOD.__name__ != f"symv.harness.{pid}":
         import warnings
 
@@ -108,6 +110,17 @@ def _summarise(res, h, params, validate):
     # replay every candidate counterexample on the real code
     for v in d["violations"]:
         v["replay"] = _replay(h, params, v["model"], v["obligation"])
+    if res.status == "outside" and h.replay_outside and res.witness is not None:
+        st, cc, exc = api.run_concrete(h.fn, params, res.witness)
+        bad = [o for o in cc.obligations if o.status != "discharged"] if st == "ok" else []
+        if st == "exception":
+            d["violations"].append(dict(obligation="no-exception", detail=f"input outside the modelled fragment ({res.message[:60]}), replayed on the real code: raised " + repr(exc)[:200], model=res.witness,
+                                        replay=dict(reproduced=True, why="real code raised " + repr(exc)[:300])))
+        elif bad:
+            d["violations"].append(dict(obligation=bad[0].name, detail=f"input outside the modelled fragment ({res.message[:60]}), replayed on the real code: " + bad[0].detail[:200], model=res.witness,
+                                        replay=dict(reproduced=True, why=bad[0].detail[:300])))
+        elif st == "ok":
+            d["validated"] = 1
     if res.status == "ok" and validate and res.witness is not None and not d["violations"]:
         st, cc, exc = api.run_concrete(h.fn, params, res.witness)
         nice = getattr(res, "witness_nice", False)
